@@ -260,6 +260,34 @@ fn withlang(sink: &mut Sink, evals: &mut u64) {
                 }
             }
         }
+        // large bodies: outer length near the 16-bit limit, inner lengths near the outer one
+        for (outer, ll, tl) in [(0xffffusize, 0xfffeusize, 0usize), (0xffff, 0xfffd, 0), (0xffff, 0xfffb, 0), (0xffff, 0x7fff, 0x7ffc), (0xffff, 0, 0xfffb),
+            (0xffff, 0, 0xfffc), (0xfffe, 0xfffa, 0), (0x8000, 0x7ffc, 0), (0x8000, 0x7ffd, 0), (0xffff, 0xffff, 0xffff), (0xffff, 2, 0xffff)] {
+            let mut body = vec![b'z'; outer];
+            body[0..2].copy_from_slice(&(ll as u16).to_be_bytes());
+            if 2 + ll + 2 <= outer {
+                body[2 + ll..4 + ll].copy_from_slice(&(tl as u16).to_be_bytes());
+            }
+            let mut bytes = HDR.to_vec();
+            bytes.push(4);
+            bytes.push(tag);
+            bytes.extend_from_slice(&[0, 1, b'w']);
+            bytes.extend_from_slice(&(outer as u16).to_be_bytes());
+            bytes.extend_from_slice(&body);
+            bytes.push(3);
+            let b2 = body.clone();
+            let dec = catch_unwind(AssertUnwindSafe(move || match IppValue::parse(tag, bytes::Bytes::from(b2)) {
+                Ok(v) => {
+                    post_value(&v);
+                    json!({"ok": true, "v": ipp_json(&v)})
+                }
+                Err(e) => json!({"ok": false, "err": "Io", "kind": kind_name(e.kind())}),
+            }))
+            .unwrap_or_else(|p| json!({"ok": false, "err": "PANIC", "what": panic_text(p)}));
+            let (ev, side) = total_event("withlang-big", &format!("wlb-{:02x}-{}-{}-{}", tag, outer, ll, tl), &bytes, json!({"dec": dec, "dectag": tag}));
+            sink.emit(&ev, &side);
+            *evals += 1;
+        }
         for n in 0..4usize {
             // bodies too short to hold even the first length
             let body = vec![0u8; n];
@@ -450,18 +478,41 @@ pub fn bomb_bytes(family: &str, n: usize) -> Vec<u8> {
             }
         }
         "nest32-repeat" => {
-            // many attributes, each a 30-deep well-formed collection chain
+            // many attributes, each a well-formed collection chain exactly as deep as the parser permits (32)
             for i in 0..n {
                 val(&mut b, 0x34, format!("c{}", i).as_bytes(), b"");
-                for _ in 1..30 {
+                for _ in 1..32 {
                     val(&mut b, 0x4a, b"", b"m");
                     val(&mut b, 0x34, b"", b"");
                 }
                 val(&mut b, 0x4a, b"", b"m");
                 val(&mut b, 0x21, b"", &[0, 0, 0, 1]);
-                for _ in 0..30 {
+                for _ in 0..32 {
                     val(&mut b, 0x37, b"", b"");
                 }
+            }
+        }
+        "set-width-oob" => {
+            // a wide set of out-of-band values (no-value / unknown / unsupported)
+            val(&mut b, 0x13, b"s", b"");
+            for i in 1..n {
+                val(&mut b, [0x13u8, 0x12, 0x10][i % 3], b"", b"");
+            }
+        }
+        "set-width-mixed" => {
+            val(&mut b, 0x21, b"s", &[0, 0, 0, 0]);
+            for i in 1..n {
+                match i % 4 {
+                    0 => val(&mut b, 0x21, b"", &(i as u32).to_be_bytes()),
+                    1 => val(&mut b, 0x44, b"", b"kw"),
+                    2 => val(&mut b, 0x22, b"", &[1]),
+                    _ => val(&mut b, 0x41, b"", b""),
+                }
+            }
+        }
+        "attrs-empty" => {
+            for i in 0..n {
+                val(&mut b, if i % 2 == 0 { 0x13 } else { 0x44 }, format!("e{}", i).as_bytes(), b"");
             }
         }
         "set-width" => {
@@ -526,14 +577,17 @@ pub fn bomb_bytes(family: &str, n: usize) -> Vec<u8> {
     b
 }
 
-pub const BOMB_FAMILIES: [(&str, usize); 16] = [
+pub const BOMB_FAMILIES: [(&str, usize); 19] = [
+    ("set-width-oob", 5),
+    ("set-width-mixed", 7),
+    ("attrs-empty", 8),
     ("nest-named-mem", 17),
     ("nest-named-val", 17),
     ("nest-named-beg", 18),
     ("nest-open", 6),
     ("nest-closed", 11),
     ("nest-members", 17),
-    ("nest32-repeat", 520),
+    ("nest32-repeat", 555),
     ("set-width", 9),
     ("attrs", 9),
     ("attrs-samename", 12),
